@@ -185,7 +185,7 @@ def run_one(job):
             env = dict(os.environ, VERIF_REPO=copy, VERIF_SEED="0", VERIF_JOBS="6")
             try:
                 q = subprocess.run([os.path.join(ROOT, "check"), prop, "--no-evidence"], cwd=ROOT, env=env, stdout=subprocess.PIPE, stderr=subprocess.STDOUT,
-                                   text=True, timeout=1800)
+                                   text=True, timeout=1000)
                 rcq, outq = q.returncode, q.stdout
             except subprocess.TimeoutExpired:
                 rcq, outq = 2, "INCONCLUSIVE timeout"
@@ -194,7 +194,10 @@ def run_one(job):
                 det.append((prop, first[:200]))
                 break
             if rcq == 2:
-                det.append((prop, "inconclusive: " + next((l for l in outq.splitlines() if l.startswith("INCONCLUSIVE")), "")[:160]))
+                why = next((l for l in outq.splitlines() if l.startswith("INCONCLUSIVE")), "")[:160]
+                det.append((prop, "inconclusive: " + why))
+                if "timeout" in why:
+                    break       # the edit makes a call endless: every further check would only wait for its watchdog too
                 continue        # another check anchored in the file may still decide
         hit = [x for x in det if not x[1].startswith("inconclusive")]
         r["status"] = "detected" if hit else ("inconclusive" if det else "SURVIVED")
